@@ -12,6 +12,7 @@ import (
 	"os"
 	"strings"
 
+	"github.com/ctessum/geom"
 	"github.com/ctessum/geom/index/rtree"
 
 	"verif/harness/cmd/c11/rtwire"
@@ -29,6 +30,10 @@ func runHist(line string, out *bufio.Writer) {
 	}
 	objs, ids := h.Objects()
 	tree := rtree.NewTree(h.Min, h.Max)
+	qb := make([]*geom.Bounds, len(h.Queries))
+	for i, q := range h.Queries {
+		qb[i] = q.Bounds()
+	}
 	for _, op := range h.Ops {
 		if op.Qry {
 			continue
@@ -55,8 +60,22 @@ func runHist(line string, out *bufio.Writer) {
 			fmt.Fprintf(&s, " | ok %s %d %d T", delres, tree.Size(), tree.Depth())
 			rtwire.Dump(&s, root, ids)
 			s.WriteString(" A")
-			for _, q := range h.Queries {
-				rtwire.IDs(&s, tree.SearchIntersect(q.Bounds()), ids)
+			// the whole batch is asked first and rendered afterwards (a result must survive later
+			// calls: no shared result buffer); the query boxes are the same *geom.Bounds objects in
+			// every step (a call must not leave state in them); after rendering the returned slices
+			// are overwritten (they belong to the caller: the tree must not keep or hand out again
+			// anything that aliases them)
+			res := make([][]geom.Geom, len(qb))
+			for i, q := range qb {
+				res[i] = tree.SearchIntersect(q)
+			}
+			for i := range res {
+				rtwire.IDs(&s, res[i], ids)
+			}
+			for i := range res {
+				for j := range res[i] {
+					res[i][j] = nil
+				}
 			}
 			b.WriteString(s.String())
 		})
